@@ -270,9 +270,33 @@ def run(repo, rep, tier):
         rule_dropped(rep, r2, f, g, jp)
         rule_gates(rep, r3, f, g, jp, expect_gate=(c.name != "Count"))
         rule_validated(rep, r5, f, g, jp)
+        rule_tag_lookup(rep, r3, f, jp)
     rule_ed(repo, rep, r6)
     rule_header(repo, rep, r3, r5, r6)
     rule_unraised(repo, rep)
+    # the gate helper itself: hasKeys/maybeAdd must not modify a mutable default (a leaked `optional` set admits extra keys later)
+    from .c06 import mutable_default_writes
+
+    hits, checked = mutable_default_writes(repo)
+    helper_hits = [h for h in hits if h[0].name in ("hasKeys", "maybeAdd")]
+    um = repo.modules.get("histogrammar.util")
+    if um is None or "hasKeys" not in um.functions:
+        raise AnalysisError("histogrammar.util.hasKeys not found")
+    r3.ob(not helper_hits, "hasKeys/maybeAdd never modify their mutable default arguments")
+    for fi, p, n, what in helper_hits:
+        rep.finding("R15.3", fi, n, f"{what} modifies the mutable default `{p}` of {fi.name}: key sets admitted by one gate leak into every "
+                    f"later gate without optional keys, so documents with extra keys are accepted", stmt=f"mutable default {p} written")
+    # hasKeys must end in the two-sided subset test (closed key set): required <= test <= required | optional
+    hk = um.functions["hasKeys"]
+    rets = [n.value for n in ast.walk(hk.node) if isinstance(n, ast.Return) and n.value is not None]
+    calls = {ast.unparse(c.func).split(".")[-1] for r_ in rets for c in ast.walk(r_) if isinstance(c, ast.Call)} | {
+        type(o).__name__ for r_ in rets for c in ast.walk(r_) if isinstance(c, ast.Compare) for o in c.ops}
+    closed = ("issubset" in calls or "LtE" in calls or "issuperset" in calls or "GtE" in calls) and any(
+        isinstance(r_, ast.BoolOp) and isinstance(r_.op, ast.And) for r_ in rets)
+    r3.ob(closed, "hasKeys returns a two-sided subset test")
+    if not closed:
+        rep.finding("R15.3", hk, hk.node, "hasKeys does not return a conjunction of two subset tests (required within test, test within "
+                    "required+optional): missing or extra keys are not both rejected", stmt="hasKeys two-sided test")
 
 
 def rule_stale(rep, r1, f, g):
@@ -624,6 +648,49 @@ def _sink(sub, pm, jp):
     if isinstance(par, ast.Compare):
         return None, "comparison"
     return None, "binding"
+
+
+def rule_tag_lookup(rep, r3, f, jp):
+    """R15.7: a type tag is resolved in the registry on every non-raising path - the lookup is not nested inside an
+    iteration over ANOTHER JSON value (which may be empty, leaving the tag unvalidated)."""
+    pm = {}
+    for n in ast.walk(f.node):
+        for ch in ast.iter_child_nodes(n):
+            pm[ch] = n
+    for n in walk_local_stmt(f.node):
+        if isinstance(n, ast.Subscript) and ast.unparse(n.value).endswith("registered"):
+            # which JSON path (or local bound to it) is the tag?
+            tag = n.slice
+            tagpath = jp.path(tag)
+            if tagpath is None and isinstance(tag, ast.Name):
+                for a in walk_local_stmt(f.node):
+                    if isinstance(a, ast.Assign) and any(isinstance(t, ast.Name) and t.id == tag.id for t in a.targets):
+                        tagpath = jp.path(a.value) or tagpath
+            if tagpath is None:
+                continue
+            root = tagpath.split("[")[0]
+            bad = None
+            cur = n
+            while cur in pm:
+                cur = pm[cur]
+                its = []
+                if isinstance(cur, ast.For):
+                    its = [(cur.target, cur.iter)]
+                elif isinstance(cur, (ast.ListComp, ast.DictComp, ast.SetComp, ast.GeneratorExp)):
+                    its = [(g.target, g.iter) for g in cur.generators]
+                for tgt, it in its:
+                    if any(x is n for x in ast.walk(it)):
+                        continue
+                    names = {x.id for x in ast.walk(tgt) if isinstance(x, ast.Name)}
+                    if root not in names:
+                        kind, src = jp.iter_source(it)
+                        if src is not None:
+                            bad = (cur, src)
+            r3.ob(bad is None, f"{f.qualname}: registry lookup of {tagpath} is unconditional")
+            if bad is not None:
+                rep.finding("R15.3", f, n, f"the type tag {tagpath} is only looked up in the registry inside the iteration over {bad[1]}: when "
+                            f"that collection is empty an unknown primitive name is accepted (and re-serialised)",
+                            stmt=f"tag {tagpath} resolved per element of {bad[1]}")
 
 
 def rule_ed(repo, rep, r6):
